@@ -98,6 +98,33 @@ ALIAS Dbg
 """
 
 
+def _confirm_laws_counterexample(ctx, res, st):
+    """a law fails on the LIVE blueprint table: replay the counterexample as a 3-block array on real flox"""
+    from .. import redcase, tlc
+    from ..graphcase import run_graph_case
+    from . import c04
+
+    s, bad = st.get("s"), st.get("bad") or []
+    tried = 0
+    for entry in bad[:12]:
+        name, mc, mode, split = entry[0], entry[1], entry[2], entry[3]
+        case = c04.build(s, tuple(split), name, (True if mode.get("rb") else False) if mode.get("simple") else None, "map-reduce", 2, mc or None)
+        if case is None:
+            continue
+        tried += 1
+        rec = run_graph_case(case)
+        if "out" not in rec:
+            continue
+        r = dict(case, groups=rec["groups"], out=rec["out"])
+        fails, _ = tlc.validate_trace("TraceReduce", [redcase.tlc_record(r, 0, check_groups=False)], tag="confirm-laws", shards=1)
+        if fails:
+            ctx.violation(r, f"design-counterexample-confirmed:MC_Laws!{res.violated}", {"blueprint": name, "split": split, "s": s, "expected": fails[0][3], "got": rec["out"]})
+            return
+    raise MachineryFailure(
+        f"MC_Laws: law {res.violated} fails on the live blueprint table for s={s} bad={str(bad)[:400]}, but {tried} replays on real flox "
+        "gave the reference answer: Aggs.tla misrepresents the code (or the counterexample needs another strategy)")
+
+
 def laws(ctx, which=("Exact", "Bracket", "Neutral")):
     """MC_Laws on the live registry + the driver's user-defined aggregations"""
     from .. import extract, tlc
@@ -115,9 +142,7 @@ def laws(ctx, which=("Exact", "Bracket", "Neutral")):
                                timeout=3000 if ctx.tier == "thorough" else 900)
         if res.violated:
             st = res.error_trace[-1] if res.error_trace else {}
-            raise MachineryFailure(
-                f"MC_Laws: law {res.violated} fails on the live blueprint table for s={st.get('s')} bad={str(st.get('bad'))[:600]} — "
-                "either a blueprint in /repo is unlawful (confirm with the replay drivers) or Aggs.tla misrepresents it")
+            _confirm_laws_counterexample(ctx, res, st)
     # negative control: nanmean whose counter is combined with max instead of sum must break Exact
     bad = []
     for r in rows:
